@@ -186,6 +186,7 @@ class Op:
 
 
 OPS = [
+    # core alphabet (quick tier: every ordered pair of these)
     Op("files", [], "files", writes=True),
     Op("--check", ["--check"], "check"),
     Op("--emit stdout", ["--emit", "stdout"], "stdout"),
@@ -195,21 +196,23 @@ OPS = [
     Op("--check --files-with-diff", ["--check", "--files-with-diff"], "check", l=True),
     Op("--backup", ["--backup"], "files", writes=True, backup=True),
     Op("-q", ["-q"], "files", writes=True, q=True),
-    Op("--emit files", ["--emit", "files"], "files", writes=True),
     Op("--backup -l", ["--backup", "-l"], "files", writes=True, l=True, backup=True),
-    Op("--check -q", ["--check", "-q"], "check", q=True),
-    Op("--check --backup", ["--check", "--backup"], "check", backup=True),
-    Op("--emit stdout -q", ["--emit", "stdout", "-q"], "stdout", q=True),
     Op("<stdin", [], "stdout", stdin=True),
     Op("--check <stdin", ["--check"], "check", stdin=True),
     Op("--emit json <stdin", ["--emit", "json"], "json", stdin=True),
     Op("--emit checkstyle <stdin", ["--emit", "checkstyle"], "checkstyle", stdin=True),
+    # flag variants (quick tier: alone, before files, before --check and after files; thorough: every pair)
+    Op("--emit files", ["--emit", "files"], "files", writes=True),
+    Op("--check -q", ["--check", "-q"], "check", q=True),
+    Op("--check --backup", ["--check", "--backup"], "check", backup=True),
+    Op("--emit stdout -q", ["--emit", "stdout", "-q"], "stdout", q=True),
     Op("--emit stdout <stdin", ["--emit", "stdout"], "stdout", stdin=True),
     Op("--check -l <stdin", ["--check", "-l"], "check", stdin=True, l=True),
     Op("-q <stdin", ["-q"], "stdout", stdin=True, q=True),
     Op("--backup <stdin", ["--backup"], "stdout", stdin=True, backup=True),
     Op("--emit files <stdin", ["--emit", "files"], "error", stdin=True),
 ]
+N_CORE = 14
 OP = {o.name: o for o in OPS}
 
 CFGS = {
@@ -364,6 +367,12 @@ def parse_json(out):
         for blk in ent["mismatches"]:
             removed = blk["original"].split("\n")[:-1]
             inserted = blk["expected"].split("\n")[:-1]
+            # the block says "lines original_begin_line..=original_end_line become `expected`"; a block that removes
+            # (inserts) nothing has end == begin by convention, so the counts come from the texts
+            for side, lines_, b, e in (("original", removed, blk["original_begin_line"], blk["original_end_line"]),
+                                       ("expected", inserted, blk["expected_begin_line"], blk["expected_end_line"])):
+                if (lines_ and e != b + len(lines_) - 1) or (not lines_ and e != b):
+                    raise ReportError(f"json block {side}_begin_line={b} {side}_end_line={e} but its {side} text has {len(lines_)} lines")
             edits.append((blk["original_begin_line"], removed, inserted, blk["expected_begin_line"]))
         res.setdefault(ent["name"], []).extend(edits)
     return res
@@ -403,6 +412,26 @@ def parse_stdout(out, names):
         end = marks[k + 1][0] if k + 1 < len(marks) else len(out)
         res.setdefault(n, []).append(out[pos + hl : end])
     return res
+
+
+def names_listed(out):
+    """Files named by -l / --files-with-diff output: one per line. The check-mode emitter names a file whose only
+    difference is the newline style as `Incorrect newline style in <path>`; the property does not fix the
+    format of the listing, so that line is read as naming <path>."""
+    res = set()
+    for x in out.decode("utf-8", "replace").split("\n"):
+        if x:
+            m = RE_NL.match(x)
+            res.add(m.group(1) if m else x)
+    return res
+
+
+def l_mismatch(flag, named, want, verb):
+    if want and not named:
+        return f"{flag} named no file although files {verb}"
+    if want - named:
+        return f"{flag} omitted a file that {verb.replace('were', 'was')}"
+    return f"{flag} named a file that is not among the files that {verb}"
 
 
 def is_subsequence(small, big):
@@ -471,7 +500,9 @@ def check_step(tree, cfg, op, root, pre, post, rc, out, err, stdin_bytes, workdi
                 v.append(("file", file_key(rel), "files mode touched a file whose formatted text equals what was on disk",
                           {"file": rel, "bytes_changed": bytes_changed, "mtime_after": post.get(rel, (None, None))[1]}))
             if post_b.get(rel) != ref:
-                v.append(("file", file_key(rel), "file contents after files mode differ from the text printed for the same source on stdin",
+                what = ("text written by files mode differs from the text printed for the same source on stdin" if bytes_changed else
+                        "files mode left a file as it was although the text printed for the same source on stdin differs from it")
+                v.append(("file", file_key(rel), what,
                           {"file": rel, "on_disk_after": show(post_b.get(rel)), "stdin_text": show(ref),
                            "rewritten": bytes_changed, "touched": touched}))
         # files that are not sources (earlier backups) stay as they are
@@ -492,10 +523,10 @@ def check_step(tree, cfg, op, root, pre, post, rc, out, err, stdin_bytes, workdi
         if gone:
             v.append(("tree", None, "files mode deleted a file", {"gone": sorted(gone)}))
         if op.l:
-            named = set(x for x in out.decode("utf-8", "replace").split("\n") if x)
+            named = names_listed(out)
             want = {absname[r] for r in changed}
             if named != want:
-                v.append(("tree", None, "-l did not name exactly the files that were rewritten",
+                v.append(("argv", None, l_mismatch("-l", named, want, "were rewritten"),
                           {"named": sorted(named), "rewritten": sorted(want)}))
 
     # (b) exit status of --check, path inputs only, no error reported
@@ -507,10 +538,10 @@ def check_step(tree, cfg, op, root, pre, post, rc, out, err, stdin_bytes, workdi
                 v.append(("tree", None, "--check exit status does not say whether files mode rewrites a file",
                           {"exit": rc, "expected": want_rc, "files_mode_rewrites": sorted(would)}))
             if op.l:
-                named = set(x for x in out.decode("utf-8", "replace").split("\n") if x)
+                named = names_listed(out)
                 want = {absname.get(r, r) for r in would}
                 if named != want:
-                    v.append(("tree", None, "--check -l did not name exactly the files that files mode rewrites",
+                    v.append(("argv", None, l_mismatch("--check -l", named, want, "files mode rewrites"),
                               {"named": sorted(named), "files_mode_rewrites": sorted(want)}))
 
     # (c) text agreement
@@ -670,6 +701,8 @@ def run_history(spec, verbose=False):
         for scope, key, what, info in found:
             if scope == "file":
                 case_id = f"{key} cfg[{cfg}] op[{op.name}]"
+            elif scope == "argv":
+                case_id = f"cfg[{cfg}] op[{op.name}]"
             elif scope == "tree":
                 case_id = f"{tree.name}[{pre_label}] cfg[{cfg}] op[{op.name}]"
             else:
@@ -763,7 +796,12 @@ def build_space(thorough):
     specs = []
     op_names = [o.name for o in OPS]
     singles = [(a,) for a in op_names]
-    pairs = [(a, b) for a in op_names for b in op_names]
+    if thorough:
+        pairs = [(a, b) for a in op_names for b in op_names]
+    else:
+        core, rest = op_names[:N_CORE], op_names[N_CORE:]
+        pairs = [(a, b) for a in core for b in core]
+        pairs += [h for x in rest for h in (("files", x), (x, "files"), (x, "--check"))]
     for tname in ("single", "pair", "modtree"):
         tree = TREES[tname]
         n = len(tree.files)
@@ -774,7 +812,9 @@ def build_space(thorough):
         for st in states:
             for cfg in CFGS:
                 if cfg == "default":
-                    hs = singles + pairs
+                    # thorough: the 3-file tree gets every pair of operations up to 2 deviating files, and every
+                    # single operation for all of its states
+                    hs = singles + (pairs if not (thorough and n == 3 and deviation(st) > 2) else NAMED)
                 else:
                     hs = singles + NAMED + ([("--backup", "--check"), ("-l", "--check --files-with-diff"), ("--check", "--backup")] if thorough else [])
                 for h in hs:
@@ -874,9 +914,12 @@ def main():
         "trees": {t.name: {"files": t.rels, "command_line": t.targets} for t in TREES.values()},
         "file_classes": CLASS_DOC if run.thorough else {k: CLASS_DOC[k] for k in "FUCNB"},
         "configs": {k: " ".join(v) for k, v in CFGS.items()},
-        "initial_states": "every assignment of a class to every file" if run.thorough else
+        "initial_states": "every assignment of a class to every file (pairs of operations on the 3-file tree: <= 2 files "
+        "that are not class F; 3 deviating files: single operations and the named histories)" if run.thorough else
         "all F, all U, mixed (both ways), one C / N / B file (root or last child)",
-        "histories": "default config: every operation and every ordered pair of operations; other configs: every "
+        "histories": ("default config: every operation and every ordered pair of operations; " if run.thorough else
+                      f"default config: every operation, every ordered pair of the first {N_CORE} operations, and "
+                      "(files;x), (x;files), (x;--check) for each other operation x; ") + "other configs: every "
         "operation and the named histories (check;format, format;check, format;format"
         + (", backup;check, -l;check -l, check;backup)" if run.thorough else ")"),
     }
